@@ -825,6 +825,7 @@ func (in *Interp) callBuiltin(caller *frame, fn *ssa.Builtin, args []value) valu
 		}
 		return nil
 	case "print", "println":
+		debugPrintln(args) // intr_C07.go: prints only when VERIF_PRINT is set (harness development)
 		return nil
 	case "len":
 		switch x := args[0].(type) {
